@@ -106,6 +106,17 @@ def gen_for(pid, rng, tier):
             spec["evalmon"] = False         # the default Null evaluation monitor
         if rng.random() < 0.15:
             spec["stepmon"] = rng.choice([2.0, 0.5, -1.0])
+        if rng.random() < 0.18:
+            # the EvaluationLimits CONDITION (not SetEvaluationLimits), alone or in an Or, with budgets that iteration
+            # boundaries land on exactly: multiples of the population size / small counts
+            npop = len(spec["population"]) if spec.get("population") else (spec.get("npop") or spec["dim"] + 1)
+            e = rng.choice([npop * rng.randint(1, 4), spec["dim"] + 1, 2 * spec["dim"] + 1, rng.randint(1, 12), None])
+            g = rng.choice([None, None, rng.randint(0, 4)])
+            if e is None and g is None:
+                e = npop * 2
+            evl = ("EVL", g, e)
+            spec["termination"] = evl if rng.random() < 0.6 else ("Or", ("VTR", 1e-9, 0.0), evl)
+            spec["limits"] = None
     if spec.get("flavour") == "ops" and not spec.get("penalty_switch"):
         # the configuration may have been completed above: regenerate the op sequence so that the hypotheses of C03
         # (constraints compatible with the box in force) hold along it
